@@ -244,7 +244,44 @@ def run(ctx):
              'what is returned is the wrapped serve\'s result (including an error of an inner before-hook) as left by the after-hook', [sh.loc(sh.d)])
 
     # ------------------------------------------------------------ HookThenServeThenHook
-    hsh = coroutine_of(F, F.trait_method('server::Serve', 'request_hook::before_and_after::HookThenServeThenHook', 'serve'))
+    hsh_m = F.trait_method('server::Serve', 'request_hook::before_and_after::HookThenServeThenHook', 'serve')
+    nested = [b for b in F.with_descendants(hsh_m) if b.coroutine]
+    if len(nested) > 1:
+        # the wrapper was split into nested async blocks: the intra-body rules cannot be applied as they stand.  One clause is still decidable:
+        # if the before part and the after part live in different bodies, the after call must be guarded, in its own body, by a test of the value
+        # the nested block produced — otherwise the before part's error is handed to `after` like a handler result.
+        where = {}
+        for b in nested:
+            for nm, key in (('BeforeRequest::before', 'B'), ('AfterRequest::after', 'A'), ('server::Serve::serve', 'S')):
+                for bb, t in calls_named(b, nm):
+                    where.setdefault(key, []).append((b, bb, t))
+        if all(len(where.get(k, [])) == 1 for k in 'BAS') and where['B'][0][0].id != where['A'][0][0].id:
+            (bB, bbB, tB), (bA, bbA, tA) = where['B'][0], where['A'][0]
+            inner_ids = {b.id for b in nested if b.id.startswith(bA.id) and b.id != bA.id}
+            def from_inner(x):
+                for r, _ in P.root(x):
+                    ru = P.unbound(r)
+                    if ru[0] == 'agg' and P._agg_rv(ru).get('adt_id') in inner_ids:
+                        return True
+                    if ru[0] == 'call':
+                        for a in P.call_args(ru):
+                            for r2, _ in P.root(a):
+                                if r2[0] == 'agg' and P._agg_rv(r2).get('adt_id') in inner_ids:
+                                    return True
+                return False
+            guarded = bool(guarded_by_variant(F, P, bA, bbA, from_inner, ['Continue', 'Ok', 'Some']))
+            carries = any(r == ('call', bB.id, bbB) and ('t', '?err') in p for r, p in ret_roots(P, bB))
+            if carries and not guarded:
+                R.ob('C19.both', ('HookThenServeThenHook::serve', 'after skipped on Break'), False,
+                     'the after part is skipped when the before part fails', [bA.loc(tA)],
+                     'the before part runs inside a nested async block whose result carries the before part\'s error; that result is handed to `after` unconditionally')
+                analysed.append(bA.id)
+                R.note('HookThenServeThenHook::serve is split into nested async blocks: the remaining clauses of this wrapper were not evaluated')
+                R.info['bodies_analysed'] = analysed
+                R.count('functions_analysed', len(analysed))
+                return
+        raise CannotDecide('coroutine body: %d candidates in %s' % (len(nested), hsh_m.id))
+    hsh = coroutine_of(F, hsh_m)
     analysed.append(hsh.id)
     B = calls_named(hsh, 'BeforeRequest::before')
     R.ob('C19.both', ('HookThenServeThenHook::serve', 'one before call'), len(B) == 1, 'the combined hook runs its before part once', [hsh.loc(t) for _, t in B] or [hsh.loc(hsh.d)])
